@@ -6,6 +6,9 @@ cd "$(dirname "$0")"
 export CARGO_NET_OFFLINE=true
 for t in cargo-kani cbmc goto-cc goto-instrument python3; do command -v $t >/dev/null || { echo "missing tool: $t"; exit 1; }; done
 mkdir -p .cache .work evidence replays
+# native differential validation of the environment models against std / lru / itertools (trusted-base check, not a deciding step)
+cp /repo/Cargo.lock native/modelcheck/Cargo.lock
+( cd native/modelcheck && RUSTUP_TOOLCHAIN=1.88.0 CARGO_TARGET_DIR="$PWD/../../.cache/native-target" MODELCHECK_ROUNDS=${MODELCHECK_ROUNDS:-20000} cargo test --offline 2>&1 | grep -E "^test |test result|^error" ; exit ${PIPESTATUS[0]} ) || { echo "model validation failed"; exit 1; }
 python3 - <<'PY'
 import sys, os, shutil
 sys.path.insert(0, os.getcwd())
